@@ -80,15 +80,16 @@ FIELD_NAMES = {
     "SpacePacketHeader": ["ccsds_version", "packet_type", "sec_header_flag", "apid", "seq_flags", "seq_count", "data_len", "packet_len",
                           "packet_id", "psc"],
     "PusTc": ["service", "subservice", "apid", "seq_count", "source_id", "ack_flags", "app_data", "packet_type", "sec_header_flag",
-              "seq_flags", "ccsds_version", "data_len", "packet_len"],
+              "seq_flags", "ccsds_version", "data_len", "packet_len", "crc16", "pack(recalc_crc=False)"],
     "PusTcDataFieldHeader": ["service", "subservice", "source_id", "ack_flags", "pus_version"],
     "PusTm": ["service", "subservice", "apid", "seq_count", "message_counter", "dest_id", "time_ref", "ccsds_version", "timestamp",
-              "tm_data", "source_data", "packet_type", "sec_header_flag", "seq_flags", "data_len", "packet_len"],
+              "tm_data", "source_data", "packet_type", "sec_header_flag", "seq_flags", "data_len", "packet_len", "crc16", "pack(recalc_crc=False)"],
     "PusTmSecondaryHeader": ["service", "subservice", "message_counter", "dest_id", "time_ref", "timestamp", "pus_version"],
     "Service17Tm": ["service", "subservice", "apid", "seq_count", "message_counter", "dest_id", "time_ref", "ccsds_version", "timestamp",
-                    "source_data", "packet_type", "sec_header_flag", "seq_flags", "data_len", "packet_len"],
+                    "source_data", "packet_type", "sec_header_flag", "seq_flags", "data_len", "packet_len", "crc16", "pack(recalc_crc=False)"],
     "Service1Tm": ["service", "subservice", "req_id_u32", "req_id", "step_id", "failure_notice", "apid", "seq_count", "dest_id", "time_ref",
-                   "ccsds_version", "timestamp", "source_data", "packet_type", "sec_header_flag", "seq_flags", "data_len", "packet_len"],
+                   "ccsds_version", "timestamp", "source_data", "packet_type", "sec_header_flag", "seq_flags", "data_len", "packet_len",
+                   "crc16", "pack(recalc_crc=False)"],
     "RequestId": ["u32", "octets", "ccsds_version", "packet_id", "psc"],
     "PacketFieldEnum": ["val", "pfc", "len"],
     "CfdpLv": ["value", "value_len"],
@@ -288,7 +289,7 @@ def sd_base(unit, recipe, fn):
     b.raw = unit.ref(recipe)
     try:
         b.obj = fn(b.raw, recipe)
-        b.obs = unit.observe(b.obj)
+        b.obs = unit.observe_decoded(b.obj)  # incl. the stored CRC / pack(recalc_crc=False) of decoded TC/TM
     except Exception as e:
         b.obj = None
         b.error = exc_s(e)
@@ -333,7 +334,7 @@ def sd_compare(unit, recipe, dname, fn, base, buf, clause="suffix"):
             return Fail(clause, dname, "refused-with-trailing-octets", exc_s(e), "decoded like the unit alone")
         return Fail(clause, dname, "undocumented-exception=" + type(e).__name__, exc_s(e), "decoded like the unit alone")
     try:
-        obs = unit.observe(d)
+        obs = unit.observe_decoded(d)
     except Exception as e:
         return Fail(clause, dname, "fields=unreadable", exc_s(e), base.obs)
     if obs != base.obs:
